@@ -21,6 +21,41 @@ def cases(draw, thorough=False, **cf_kwargs):
     return cf, specs, nums
 
 
+BOUNDARY_BYTES = [254, 255, 256, 257, 510, 511, 512, 513, 765, 766, 767, 768, 769, 1020, 1021, 1023, 1024, 1025]
+
+
+@st.composite
+def boundary_cases(draw):
+    """Lossless HQ, no transform, one or two slices: the luma slice data is placed exactly on / next to the
+    255-byte length-field boundaries (k*255, k*256) where slice_size_scaler decisions change."""
+    from vc2_data_tables import Profiles
+
+    cf = draw(G.codec_features(profile=Profiles.high_quality, lossless=True, max_size=8, max_dwt=0, max_dwt_ho=0,
+                               max_depth_bits=10, max_slices=1, fragments=False, simple_vp=True,
+                               pcm=PictureCodingModes.pictures_are_frames))
+    target = draw(st.sampled_from(BOUNDARY_BYTES))
+    n = 2 * target + draw(st.sampled_from([0, 0, -1, 1]))
+    side = 8
+    while side * side < 2 * n + 8:
+        side += 8
+    vp = cf["video_parameters"]
+    vp["frame_width"], vp["frame_height"] = side, side
+    vp["clean_width"], vp["clean_height"], vp["left_offset"], vp["top_offset"] = side, side, 0, 0
+    vp["color_diff_format_index"] = G.C444
+    if min(G.depths(vp)) < 2:
+        vp["luma_excursion"], vp["color_diff_excursion"] = 255, 255
+    cf["dwt_depth"], cf["dwt_depth_ho"] = 0, 0
+    cf["wavelet_index_ho"] = cf["wavelet_index"]
+    cf["quantization_matrix"] = None if (cf["wavelet_index"], cf["wavelet_index"], 0, 0) in __import__("vc2_data_tables").QUANTISATION_MATRICES else {0: {"LL": 0}}
+    cf["slices_x"] = draw(st.sampled_from([1, 1, 2]))
+    cf["slices_y"] = 1
+    comp = draw(st.sampled_from(["Y", "C1", "C2"]))
+    kinds = ["constmid", "constmid", "constmid"]
+    kinds[["Y", "C1", "C2"].index(comp)] = "ones:%d" % (n * cf["slices_x"])
+    specs = [(kinds[0], kinds[1], kinds[2], draw(st.integers(0, 1000)))]
+    return cf, specs, None
+
+
 def case_json(cf, specs, nums):
     return {"config": G.config_json(cf), "specs": [list(s) for s in specs], "pic_nums": nums}
 
